@@ -2004,9 +2004,19 @@ class Type_Declaration_StmtBase(StmtBase):
                 i = m.start() + len(line) - len(line[6:].lstrip())
             else:
                 m = re.search(r"\s[a-z_]", line, re.I)
-                if m is None:
-                    return
-                i = m.start()
+                bracket = line.find("(")
+                if bracket != -1 and (m is None or m.start() > bracket):
+                    # The type specification has a bracketed selector
+                    # (TYPE( t ), CHARACTER( len=3 ), INTEGER(4)): the
+                    # entity list starts behind it, whatever blanks the
+                    # brackets contain and whether or not a blank follows.
+                    i = line.find(")", bracket) + 1
+                    if i == 0 or re.match(r"\s*[a-z_]", line[i:], re.I) is None:
+                        return
+                else:
+                    if m is None:
+                        return
+                    i = m.start()
         type_spec = decl_type_spec_cls(repmap(line[:i].rstrip()))
         if type_spec is None:
             return
